@@ -75,6 +75,35 @@ static std::string run_seq(int prov, const std::vector<BOp> &ops, SeqStats *ss =
 
 static std::string case_json(int prov, const std::vector<BOp> &ops) { return "{\"prov\":" + std::to_string(prov) + ",\"ops\":" + bops_json(ops) + ",\"readable\":" + bops_readable(ops) + ",\"trace\":" + jstr(TRACE) + "}"; }
 
+// ---- the clock moves while a token is generated (every reading of time() advances it): "iat = now, nbf = now + offset, exp = now + offset"
+// speak of ONE instant per token - whichever reading that is, the three claims agree on it and it lies within the call
+static std::string moving_clock_case(int prov, int keyed, int iat, long nbf_off, long exp_off, long step, bool second_use) {
+  const long long T = 1700000000; set_provider(prov); set_now((time_t)T);
+  jwt_builder_t *b = jwt_builder_new(); std::string r;
+  if (keyed) jwt_builder_setkey(b, JWT_ALG_NONE, keytab()[1].lk->item);
+  jwt_builder_enable_iat(b, iat); jwt_builder_time_offset(b, JWT_CLAIM_NBF, nbf_off); jwt_builder_time_offset(b, JWT_CLAIM_EXP, exp_off);
+  if (second_use) { char *t0 = jwt_builder_generate(b); free(t0); }
+  set_now((time_t)T); set_ticking(step); char *t = jwt_builder_generate(b); set_ticking(0); long long T1 = (long long)now_ref(); set_now((time_t)T);
+  if (!t) r = "generate-fails-while-the-clock-moves";
+  else { TokParts tp = split_token(t); J p = J::parse(tp.pdec); free(t);
+    if (!p || !json_is_object(p.p)) r = "payload-not-json-object";
+    else { json_t *ji = json_object_get(p.p, "iat"), *jn = json_object_get(p.p, "nbf"), *je = json_object_get(p.p, "exp"); bool have = false; long long inst = 0;
+      auto claim = [&](json_t *j, bool want, long off, const char *nm) { if (!r.empty()) return; if (!want) { if (j) r = std::string(nm) + "-present-although-off"; return; } if (!j || !json_is_integer(j)) { r = std::string(nm) + "-missing"; return; }
+        long long base = (long long)json_integer_value(j) - off; if (base < T || base > T1) { r = std::string(nm) + "-not-from-an-instant-within-the-call"; return; } if (have && base != inst) { r = std::string(nm) + "-from-another-instant-than-the-other-time-claims"; return; } have = true; inst = base; };
+      claim(ji, iat != 0, 0, "iat"); claim(jn, nbf_off > 0, nbf_off, "nbf"); claim(je, exp_off > 0, exp_off, "exp"); } }
+  jwt_builder_free(b); return r;
+}
+static bool moving_clock_part(const Args &a) {
+  Stats &st = stats(); int idx = 0;
+  for (int prov = 0; prov < 2; prov++) for (int keyed = 0; keyed < 2; keyed++) for (int iat = 0; iat < 2; iat++) for (long nbf_off : {0L, 30L}) for (long exp_off : {0L, 60L}) for (long step : {1L, 7L}) for (int second = 0; second < 2; second++) {
+    if ((idx++ % a.nworkers) != a.worker) continue;
+    std::string r = moving_clock_case(prov, keyed, iat, nbf_off, exp_off, step, second != 0);
+    st.evaluations++; st.cls("moving-clock-cells"); if (iat + (nbf_off > 0) + (exp_off > 0) >= 2) st.nontrivial(mix(fnv("tick10"), mix(prov * 4 + keyed * 2 + iat, mix(nbf_off * 100 + exp_off, step * 2 + second))));
+    if (!r.empty()) { st.violation("C10:moving-clock:" + r, "time claims of one token do not stem from one instant of the call: " + r, "{\"kind\":\"moving-clock\",\"prov\":" + std::to_string(prov) + ",\"keyed\":" + std::to_string(keyed) + ",\"iat\":" + std::to_string(iat) + ",\"nbf_off\":" + std::to_string(nbf_off) + ",\"exp_off\":" + std::to_string(exp_off) + ",\"step\":" + std::to_string(step) + ",\"second\":" + std::to_string(second) + "}"); return false; }
+  }
+  return true;
+}
+
 int main(int argc, char **argv) {
   Args a = parse_args(argc, argv); vo::allow_noctx() = true;
   init_keys(a.thorough());
@@ -82,11 +111,13 @@ int main(int argc, char **argv) {
   Stats &st = stats();
   if (!a.replay.empty()) {
     J j = J::parse(read_file(a.replay)); if (!j) return 2;
+    if (json_object_get(j.p, "kind")) { auto gi = [&](const char *k) { return (long)json_integer_value(json_object_get(j.p, k)); }; std::string r = moving_clock_case((int)gi("prov"), (int)gi("keyed"), (int)gi("iat"), gi("nbf_off"), gi("exp_off"), gi("step"), gi("second") != 0); if (!r.empty()) fprintf(stderr, "replay: %s\n", r.c_str()); return r.empty() ? 0 : 3; }
     std::vector<BOp> ops = bops_from_json(json_object_get(j.p, "ops"));
     std::string r = run_seq((int)json_integer_value(json_object_get(j.p, "prov")), ops);
     if (!r.empty()) fprintf(stderr, "replay: %s | %s\n", r.c_str(), TRACE.c_str());
     return r.empty() ? 0 : 3;
   }
+  if (!moving_clock_part(a)) return finish();
   uint64_t n = a.thorough() ? 100000 : 1200;
   if (a.kv.count("cases")) n = strtoull(a.kv["cases"].c_str(), 0, 10);
   std::string params = "seed=" + std::to_string(a.seed * 1000 + a.worker) + " max_success=" + std::to_string(n) + " max_size=100";
